@@ -346,6 +346,12 @@ def _dual(case):
     ok, V = c.lib("vec", lambda: A.vec)
     if ok:
         c.eq("vec/value", V, a, 0)
+    # the 8-vector constructor form is the inverse of .vec
+    ok, A8 = c.lib("ctor8", lambda: L.DualQuaternion(a.copy()))
+    if ok and c.true("ctor8/type", type(A8) is L.DualQuaternion, "DualQuaternion(8-vector) is %s" % type(A8).__name__):
+        ok, V8 = c.lib("ctor8/vec", lambda: A8.vec)
+        if ok:
+            c.eq("ctor8/value", V8, a, 0)
     ok, N = c.lib("norm", A.norm)
     if ok:
         if c.true("norm/pair", isinstance(N, tuple) and len(N) == 2, "norm returned %r" % (N,)):
